@@ -29,7 +29,15 @@ def run_property(pid, tier, root):
         from sa.srcmodel import installed_versions
         rep.analysed['dependency_versions'] = installed_versions()
         mod = importlib.import_module(f'sa.rules.{pid.lower()}')
+        del engine.PYERRORS[:]
         mod.check(rep, model, tier)
+        rep.rule('NO-PYERROR', 'no path evaluated by the rules above contains a Python-level error that the evaluator models exactly (NameError / UnboundLocalError for a name '
+                               'that is unbound on that path, AttributeError for a missing attribute of a constructed object, TypeError for **None or a duplicate keyword): '
+                               'such a call raises instead of producing the result the property talks about')
+        for kind, guard, where, entry in engine.PYERRORS:
+            from sa import terms as T_
+            rep.violation('NO-PYERROR', f'{kind}@{where}', where, expected='the path returns', found=f'{kind} raised when {entry} is evaluated' +
+                          ('' if guard == T_.TRUE else f' under {T_.brief(guard, 100)}'))
     except AnalysisError as e:
         rep.unresolved('ENGINE', 'analysis', '-', str(e))
     except Exception as e:      # an internal error is never a verdict
